@@ -362,6 +362,10 @@ impl Family for C06 {
         gen_case(rng, idx)
     }
 
+    fn realtime(case: &str) -> bool {
+        parse_case(case).flavor != 0
+    }
+
     fn run(case_s: &str) -> Outcome {
         let case = parse_case(case_s);
         let paused = case.flavor == 0;
